@@ -20,4 +20,4 @@ for id in "$@"; do
     code=$?
     echo "$id: exit=$code $(echo "$out" | grep -E '^  signature' | head -3 | tr '\n' ' ')"
 done
-rm -rf /verif/replays/*/viol_* 2>/dev/null
+
